@@ -4,6 +4,12 @@ From Coquelicot Require Import Coquelicot.
 From OAS Require Import Scalar Rops Sums Deriv Dual DualProofs Drag DragDeriv Stress StressDeriv StressProofs Transfer TransferDeriv Loads LoadsDeriv Functionals FunctionalsDeriv Aero AeroDeriv PG PGDeriv Beam BeamTables BeamDeriv Geom GeomDeriv Misc MiscDeriv MultiSec MultiSecDeriv.
 Open Scope R_scope.
 
+Theorem C01_LocalStiffPermuted :
+  forall (Kl : R -> nat -> nat -> R) (t0 : R) (kl : nat -> nat -> dual R) (j k : nat),
+  DR2 Kl t0 kl -> DR (fun t : R => permuted (Kl t) j k) t0 (permuted kl j k).
+Proof. exact permuted_DR. Qed.
+Print Assumptions C01_LocalStiffPermuted.
+
 Theorem C01_Transform :
   forall (N : R -> nat -> nat -> R) (t0 : R) (n : nat -> nat -> dual R) (e : nat),
   DR2 N t0 n ->
@@ -102,17 +108,4 @@ Theorem C01_ShearXYZ :
   DR1 Sh t0 sh -> DR (fun t : R => shear_mesh axis (Sh t) (M t) i j d) t0 (shear_mesh axis sh m i j d).
 Proof. exact shear_mesh_DR. Qed.
 Print Assumptions C01_ShearXYZ.
-
-Theorem C01_Stretch :
-  forall (npx npy : nat) (M : R -> nat -> nat -> nat -> R) (Rap : R -> R) (t0 : R)
-    (m : nat -> nat -> nat -> dual R) (rap : dual R),
-  DR3 M t0 m ->
-  DR Rap t0 rap ->
-  forall (sym : bool) (Sp : R -> R) (sp : dual R) (i j d : nat),
-  DR Sp t0 sp ->
-  ref_axis npx (Rap t0) (M t0) npy 1 - ref_axis npx (Rap t0) (M t0) 0 1 <> 0 ->
-  DR (fun t : R => stretch_mesh npx npy sym (Rap t) (Sp t) (M t) i j d) t0
-    (stretch_mesh npx npy sym rap sp m i j d).
-Proof. exact stretch_mesh_DR. Qed.
-Print Assumptions C01_Stretch.
 
